@@ -38,7 +38,11 @@ func (x *c14Run) roundMsgSize(r c14Round, srv *c14Server) {
 	if !ok {
 		return
 	}
-	defer func() { host.WS.Drop() }()
+	defer func() {
+		if host != nil && host.WS != nil {
+			host.WS.Drop()
+		}
+	}()
 	var sizes []int
 	if cfg.MaxBytes > 0 {
 		L := cfg.MaxBytes
@@ -85,6 +89,14 @@ func (x *c14Run) roundMsgSize(r c14Round, srv *c14Server) {
 		if !delivered {
 			closed = !rcv.WS.Alive(2 * time.Second)
 		}
+		// a socket closed while the session's lifetime had not yet elapsed was not closed by the expiry
+		withinLife := cfg.Timeout == 0 || c14Now()-sess.Start < int64(cfg.Timeout)
+		if !delivered && !withinLife {
+			e.R.NoVerd()
+			x.st.count("msgsize:probe_outlived_session", 1)
+			rcv.WS.Drop()
+			continue
+		}
 		p := map[string]any{"frame_bytes": len(frame), "delivered": delivered, "sender_socket_closed_by_server": closed, "marker_without_frame": markerOnly}
 		if delivered {
 			p["delivered_bytes_at_peer"] = m.Len
@@ -115,8 +127,8 @@ func (x *c14Run) roundMsgSize(r c14Round, srv *c14Server) {
 		}
 		rcv.WS.CloseGraceful(2 * time.Second)
 	}
-	if !host.WS.Alive(3 * time.Second) {
-		e.R.Inconcl(fmt.Sprintf("%s %s: host socket died during the size probes", r.ID, r.key()))
+	if !host.WS.Alive(3*time.Second) && (cfg.Timeout == 0 || c14Now()-sess.Start < int64(cfg.Timeout)) {
+		e.R.Inconcl(fmt.Sprintf("%s %s: host socket died during the size probes although its session had not expired", r.ID, r.key()))
 		return
 	}
 	obs := map[string]any{"round": r.key(), "max_message_bytes": cfg.MaxBytes, "probes": probes, "largest_delivered": largestDelivered, "smallest_refused": smallestRefused, "session_rotations": rotations}
@@ -149,8 +161,12 @@ func (x *c14Run) roundMsgRate(r c14Round, srv *c14Server) {
 	pause := r.Seed%2 == 1 // half of the rounds pause mid-way so that the bucket refills
 	prefix := fmt.Sprintf("rate-%x-", r.Seed&0xffffff)
 	sent := 0
+	pauseAt := M / 2
+	if cfg.MsgRate > 0 && cfg.MsgBurst-1 < pauseAt && cfg.MsgBurst > 1 {
+		pauseAt = cfg.MsgBurst - 1 // pause before the bucket is empty so that the refill is exercised
+	}
 	for i := 0; i < M; i++ {
-		if pause && i == M/2 {
+		if pause && i == pauseAt {
 			time.Sleep(400 * time.Millisecond)
 		}
 		if err := rcv.WS.SendText(c14Envelope(fmt.Sprintf("%s%d", prefix, i), host.PeerID, 128)); err != nil {
@@ -184,6 +200,8 @@ func (x *c14Run) roundMsgRate(r c14Round, srv *c14Server) {
 	if !closed && delivered < M {
 		closed = !rcv.WS.Alive(2 * time.Second)
 	}
+	// a socket closed while the session's lifetime had not yet elapsed was not closed by the expiry
+	withinLife := cfg.Timeout == 0 || c14Now()-sess.Start < int64(cfg.Timeout)
 	if lastAt == 0 {
 		lastAt = c14Now()
 	}
@@ -193,13 +211,18 @@ func (x *c14Run) roundMsgRate(r c14Round, srv *c14Server) {
 	if cfg.MsgRate > 0 {
 		bound := c14RateBound(cfg.MsgBurst, float64(cfg.MsgRate), elapsed)
 		obs["bound(burst+rate*elapsed+1)"] = bound
-		x.st.limit("ws-msgs-rate", int(bound), delivered, M)
+		x.st.limit(fmt.Sprintf("ws-msgs-rate(%d/s,burst %d; limit=bound of the last round)", cfg.MsgRate, cfg.MsgBurst), int(bound), delivered, M)
 		if float64(delivered) > bound {
 			e.R.Violate("limit:ws-msgs-rate:exceeded", fmt.Sprintf("%d messages of one connection were delivered within %.1f ms; burst %d + %d/s allows at most %.2f", delivered, c14ms(elapsed), cfg.MsgBurst, cfg.MsgRate, bound), caseSpec, obs)
 		}
 	} else {
 		x.st.limit("ws-msgs-per-sec:zero", 0, delivered, M)
 		if delivered < M {
+			if !withinLife {
+				e.R.NoVerd()
+				x.st.count("msgrate:round_outlived_session", 1)
+				return
+			}
 			if closed {
 				e.R.Violate("limit:ws-msgs-per-sec:zero", fmt.Sprintf("--ws-msgs-per-sec 0 (no limit) but only %d of %d messages were delivered and the server closed the sender's socket", delivered, M), caseSpec, obs)
 			} else {
